@@ -68,7 +68,11 @@ func (pf *ProposalFundStore) iterate(fn func(proposalID ProposalID, addr keys.Ad
 			}
 			arr := strings.Split(string(key), storage.DB_PREFIX)
 			// key example: propFunds_i_proposalID_fundingAddress
-			proposalID := arr[2]
+			if len(arr) < 4 {
+				return true
+			}
+			// a proposal id may contain the separator itself: it is everything between the record type and the address
+			proposalID := strings.Join(arr[2:len(arr)-1], storage.DB_PREFIX)
 			var fundingAddress keys.Address = nil
 			fundingAddress = keys.Address(arr[len(arr)-1])
 			err = fundingAddress.UnmarshalText([]byte(arr[len(arr)-1]))
